@@ -468,6 +468,8 @@ def run_twins(chk, exe, found_limit=2):
         for ft in prog['features']:
             chk.dist('twin_families', ft)
         chk.dist('twin_calls_per_program', len(d['calls']))
+        for c in d['callees']:
+            chk.dist('twin_callee_results', '+'.join(c['rets']))
         chk.dist('twin_callee_kinds', '+'.join(sorted(set(c[0] if c[0] != 'mir' else 'mir-' + c[2] for c in d['calls']))))
         if k == 0:
             chk.sample('prototype twins: ' + ' | '.join('%s: %s' % (c['name'], A.sig_text(c)) for c in d['callees'])[:500])
@@ -475,6 +477,18 @@ def run_twins(chk, exe, found_limit=2):
         for order in orders:
             cs = ['call %s ii %d %d' % (n, a0, a1) for n, rev, a0, a1 in order]
             exp = [str(T.expected(d, rev, a0, a1)) for n, rev, a0, a1 in order]
+            # (wave 7) the two-result entries, called from C through their address (MIR_interp_arr under mirinterp),
+            # before or after the drivers
+            mcs, mexp = [], []
+            for m in d['mres']:
+                b0, b1 = sv(), sv()
+                mcs.append('call %s r2:%s %d %d' % (m['name'], ':'.join(m['rets']), b0, b1))
+                mexp += [str(x) for x in T.expected_mre(m, b0 % 2 ** 64, b1 % 2 ** 64)]
+                chk.dist('twin_two_result_entries', '+'.join(m['rets']))
+            if order is orders[0] or order is orders[3]:
+                cs, exp = cs + mcs, exp + mexp
+            else:
+                cs, exp = mcs + cs, mexp + exp
             outs = run_prog(exe, path, specs, cs, opt, timeout=120)
             for sp, o in zip(specs, outs):
                 chk.count((prog['text'], sp, tuple(cs), opt), nontrivial=True)
